@@ -1,0 +1,24 @@
+// Copyright © 2022-2026 Obol Labs Inc. Licensed under the terms of a Business Source License 1.1
+
+//go:build verif
+
+package keystore
+
+import "github.com/obolnetwork/charon/tbls"
+
+// Verification hooks (build tag verif): add-only wrappers around unexported functions, no behaviour change.
+
+// VerifExtractFileIndex calls extractFileIndex.
+func VerifExtractFileIndex(filename string) (int, error) { return extractFileIndex(filename) }
+
+// VerifCheckDir calls checkDir.
+func VerifCheckDir(dir string) error { return checkDir(dir) }
+
+// VerifLoadPassword calls loadPassword.
+func VerifLoadPassword(keyFile string) (string, error) { return loadPassword(keyFile) }
+
+// VerifStorePassword calls storePassword.
+func VerifStorePassword(keyFile string, password string) error { return storePassword(keyFile, password) }
+
+// VerifDecrypt calls decrypt.
+func VerifDecrypt(store Keystore, password string) (tbls.PrivateKey, error) { return decrypt(store, password) }
